@@ -1,6 +1,6 @@
 """C07 (derived part) — derived CborLen is exact.  To be merged into checks/C07.py."""
 import derivegen as dg
-from derivegen import prepare, route
+from derivegen import prepare, route, oracle
 
 RULE = ("DLEN <sid> <schema> <def> <value>: minicbor::len of a value of a generated type definition (schema grammar of checks/derivegen.py, incl. "
         "23/24/25/30-field definitions under map and array encoding, tags at every level, transparent, skip, index_only, codecs) vs. the bytes "
